@@ -1,5 +1,6 @@
 import AsyncsshModel.Model.Stream
 import AsyncsshModel.Model.StreamProc
+import AsyncsshModel.Model.StreamSrc
 /- Line-protocol driver for the C19 correspondence (see harness/props/C19.py).
 
    S <limit> <tok>...      one reader over time.  Tokens:
@@ -8,8 +9,14 @@ import AsyncsshModel.Model.StreamProc
                            arrive while it waits / before the next call
         R<int> read(n)   X<int> readexactly(n)   U<hex>,<hex>.. readuntil(list)   V<hex> readuntil(bytes)   P<maxlen>:<hex>,.. readuntil(regex)
         L readline   Q at_eof()
-   P <limit> <ev>...       process layer: d<hex> D<hex> e s<n> S<n> c t x0 x1 w r0 r1
-   D <ev>.. | <ev>..       drain: events before the call | events while it waits (p r l0 l1)
+        O<n>  n bytes arrive for the OTHER stream of the session (counted in `_recv_buf_len`, not in this buffer)
+        T<n>  the application reads n bytes of the other stream
+   P <limit> <ev>...       process layer: d<hex> D<hex> e s<n> S<n> c t x0 x1 w r0 r1 (redirect to a file object)
+                           q0 q1 (redirect to another process's stdin: the same event for the model)
+   D <ev>.. | <ev>..       drain: events before the call | events while it waits (p r l0 l1, s = a redirect source
+                           is registered for the stream, f = the source ended)
+   R <ev>...               redirect sources of a server process: o0 o1 E0 E1 (redirect stdout / stderr, send_eof),
+                           d<hex> D<hex> (the source delivers), z Z (the source ends)
 -/
 open AsyncsshModel AsyncsshModel.Stream
 
@@ -38,6 +45,8 @@ inductive Tok where
   | group (g : List Arrival)
   | op (o : Op)
   | atEof
+  | other (n : Nat)
+  | otherRead (n : Nat)
 
 def parseTok (s : String) : Option Tok :=
   match s.toList with
@@ -55,6 +64,8 @@ def parseTok (s : String) : Option Tok :=
     | _ => none
   | ['L'] => some (.op .line)
   | ['Q'] => some .atEof
+  | 'O' :: r => (String.ofList r).toNat?.map .other
+  | 'T' :: r => (String.ofList r).toNat?.map .otherRead
   | _ => none
 
 def showExc : Exc → String
@@ -78,6 +89,8 @@ partial def runToks (s : St) : List Tok → List String
   | [] => []
   | .group g :: r => runToks (absorb s g) r
   | .atEof :: r => (if atEof s then "eof=1" else "eof=0") :: runToks s r
+  | .other n :: r => runToks (otherDeliver s n) r
+  | .otherRead n :: r => runToks (otherRead s n) r
   | .op o :: r =>
     let (sched, rest) := takeGroups r
     match runOp o s sched with
@@ -95,6 +108,8 @@ def parsePEv (s : String) : Option PEv :=
   | ['x', '1'] => some (.disconnect true)
   | ['r', '0'] => some (.redirect false)
   | ['r', '1'] => some (.redirect true)
+  | ['q', '0'] => some (.redirect false)
+  | ['q', '1'] => some (.redirect true)
   | 'd' :: r => (unhex (String.ofList r)).map (.data false)
   | 'D' :: r => (unhex (String.ofList r)).map (.data true)
   | 's' :: r => (String.ofList r).toNat?.map .exitStatus
@@ -118,6 +133,8 @@ def parseDEv (s : String) : Option DEv :=
   | "r" => some .resumeWriting
   | "l0" => some (.lost false)
   | "l1" => some (.lost true)
+  | "s" => some .setReader
+  | "f" => some .readerDone
   | _ => none
 
 open AsyncsshModel.StreamProc in
@@ -126,6 +143,24 @@ def showD : DrainRes → String
   | .raisedExc => "exc"
   | .brokenPipe => "brokenpipe"
   | .blocked => "blocked"
+
+open AsyncsshModel.StreamSrc in
+def parseSEv (s : String) : Option SEv :=
+  match s.toList with
+  | ['o', '0'] => some (.redirect false false)
+  | ['o', '1'] => some (.redirect false true)
+  | ['E', '0'] => some (.redirect true false)
+  | ['E', '1'] => some (.redirect true true)
+  | ['z'] => some (.srcEof false)
+  | ['Z'] => some (.srcEof true)
+  | 'd' :: r => (unhex (String.ofList r)).map (.data false)
+  | 'D' :: r => (unhex (String.ofList r)).map (.data true)
+  | _ => none
+
+open AsyncsshModel.StreamSrc in
+def showS (s : SSt) : String :=
+  let part (err : Bool) : Bytes := (s.wire.filter (·.1 == err)).flatMap (·.2)
+  s!"out={hex (part false)} err={hex (part true)} eof={if s.eofSent then 1 else 0} refused={s.refused}"
 
 def step (_ : Unit) (ws : List String) : Unit × String :=
   let r := match ws with
@@ -143,6 +178,10 @@ def step (_ : Unit) (ws : List String) : Unit × String :=
       match pre.mapM parseDEv, post.mapM parseDEv with
       | some pre, some post => showD (StreamProc.drain (pre.foldl StreamProc.dstep {}) post).1
       | _, _ => "bad-op"
+    | "R" :: evs =>
+      match evs.mapM parseSEv with
+      | some evs => showS (StreamSrc.srun {} evs)
+      | none => "bad-op"
     | _ => "bad-op"
   ((), r)
 
